@@ -350,30 +350,107 @@ def b3(cx):
         out.update(k)
         return out
 
-    for same in (True, False):
+    def consts_of(I):
+        """integer constants the function's control flow can depend on: its own literals and the module-level integers
+        it names (block sizes, thresholds).  They give the WITNESS sizes on which a form whose shape depends on nbytes
+        (block-wise staging) is evaluated when the symbolic evaluation is not decided."""
+        out = set()
+        for nd in ast.walk(fn):
+            if isinstance(nd, ast.Constant) and isinstance(nd.value, int) and not isinstance(nd.value, bool) and nd.value > 1:
+                out.add(nd.value)
+            elif isinstance(nd, ast.Name):
+                try:
+                    v = I.global_lookup("context", nd.id)
+                except Exception:
+                    continue
+                if isinstance(v, int) and not isinstance(v, bool) and v > 1:
+                    out.add(v)
+        return sorted(out)
+
+    def evaluate(same, nb):
         I = Interp(m)
         XB = I.global_lookup("context", "XBuffer")
         log = []
         c1, c2 = Obj("instance", {}, name="ctxA"), Obj("instance", {}, name="ctxB")
-        staged = Opaque("staged-bytes")
         srcbuf = Opaque("source.buffer")
+        staged = []
 
         def rec(kind, names):
             return Builtin(kind, lambda *a, **k: log.append((kind, bind(names, a, k))))
 
         def tba(*a, **k):
-            log.append(("to_bytearray", bind(("offset", "nbytes"), a, k)))
-            return staged
+            st = Opaque(f"staged-bytes-{len(staged)}")
+            staged.append(st)
+            d = bind(("offset", "nbytes"), a, k)
+            d["result"] = st
+            log.append(("to_bytearray", d))
+            return st
 
         me = Obj("instance", {"context": c1, "buffer": Opaque("self.buffer"),
                               "update_from_native": rec("update_from_native", ("offset", "source", "source_offset", "nbytes")),
                               "update_from_buffer": rec("update_from_buffer", ("offset", "source"))}, cls=XB)
         src = Obj("instance", {"context": c1 if same else c2, "buffer": srcbuf, "to_bytearray": Builtin("to_bytearray", tba),
                                "to_nplike": Builtin("to_nplike", lambda *a, **k: (log.append(("to_nplike", {})), Opaque("nplike"))[1])}, cls=XB)
-        res = I.explore(lambda: I.call(I.getattr(me, "update_from_xbuffer"), [OFFS, src, SOFF, NB], {}), max_paths=8)
-        cx.recog(len(res) == 1 and res[0]["exc"] is None, fn, f"update_from_xbuffer ({'same' if same else 'other'} context): evaluation did not end in one normal path ({[str(r['exc']) for r in res][:2]})")
-        writes = [e for e in log if e[0] in ("update_from_native", "update_from_buffer")]
+        res = I.explore(lambda: I.call(I.getattr(me, "update_from_xbuffer"), [OFFS, src, SOFF, nb], {}), max_paths=8)
+        return I, res, log, srcbuf
+
+    def tiles(log, nb):
+        """the staged pieces, in the order they are made, must tile the request: piece i is extracted at
+        source_offset + (sum of the earlier lengths) and written at offset + (the same sum); the lengths add up to
+        nbytes.  Returns '' or what is wrong."""
+        from ..peval import topoly
+        pos = Poly.const(0)
+        ext = [e for e in log if e[0] == "to_bytearray"]
+        wr = [e for e in log if e[0] == "update_from_buffer"]
+        if any(e[0] == "update_from_native" for e in log):
+            return "hands the staged bytes to the native copy"
+        if not ext or len(ext) != len(wr):
+            return f"{len(ext)} extraction(s), {len(wr)} write(s)"
+        for e, w in zip(ext, wr):
+            eo, en, wo = topoly(e[1].get("offset")), topoly(e[1].get("nbytes")), topoly(w[1].get("offset"))
+            if eo is None or en is None or wo is None:
+                return "an extent that is not an integer expression"
+            if w[1].get("source") is not e[1]["result"]:
+                return "a piece is written that is not the piece just extracted"
+            if eo != topoly(SOFF) + pos or wo != topoly(OFFS) + pos:
+                return f"piece at source_offset+{eo - topoly(SOFF)!r} written at offset+{wo - topoly(OFFS)!r}, expected +{pos!r} for both"
+            pos = pos + en
+        if pos != topoly(nb):
+            return f"the pieces cover {pos!r} bytes, requested {topoly(nb)!r}"
+        return ""
+
+    for same in (True, False):
         label = f"update_from_xbuffer, source in {'the same' if same else 'another'} context"
+        undecided = None
+        try:
+            I, res, log, srcbuf = evaluate(same, NB)
+            cx.recog(len(res) == 1 and res[0]["exc"] is None, fn, f"update_from_xbuffer ({'same' if same else 'other'} context): evaluation did not end in one normal path ({[str(r['exc']) for r in res][:2]})")
+        except AnalysisError as e:
+            if same:
+                raise
+            undecided = e
+        if undecided is not None:
+            # the form depends on the size (block-wise staging): not decided symbolically.  Witness sizes around the
+            # constants the function names can still REFUTE it (a piece outside the request is a positive finding);
+            # they cannot prove it -- without a refutation the answer stays "not decided"
+            I0 = Interp(m)
+            cs = consts_of(I0)
+            wit = sorted({0, 1, 7, 8, 9} | {w for c in cs if c <= (1 << 24) for w in (c - 1, c, c + 1, c + 9, 2 * c, 2 * c + 1, 2 * c + 8, 3 * c + 1, 3 * c + 2)})
+            for nbw in wit:
+                try:
+                    I, res, log, srcbuf = evaluate(False, nbw)
+                except AnalysisError:
+                    continue
+                if len(res) != 1 or res[0]["exc"] is not None:
+                    continue
+                why = tiles(log, nbw)
+                if why:
+                    cx.bad(None, construct=label + ": pieces", detail=f"for nbytes = {nbw}: {why} -- bytes outside [offset, offset + nbytes) are read and written (the symbolic evaluation was not decided: {str(undecided)[:120]})", anchor="context::XBuffer.update_from_xbuffer", sub="pieces")
+                    break
+            else:
+                raise undecided
+            continue
+        writes = [e for e in log if e[0] in ("update_from_native", "update_from_buffer")]
 
         def is_(v, want):
             return v is want or (isinstance(v, Sym) and isinstance(want, Sym) and v == want)
@@ -383,11 +460,8 @@ def b3(cx):
             ok = ok and not any(e[0] in ("to_bytearray", "to_nplike") for e in log)
             cx.check(ok, None, construct=label, detail="one native copy (offset, source.buffer, source_offset, nbytes), no staging through the host", bad_detail=f"same-context copy is not the native copy of (offset, source.buffer, source_offset, nbytes): {[(k, {a: repr(b) for a, b in d.items()}) for k, d in log]}", anchor="context::XBuffer.update_from_xbuffer", sub="native")
         else:
-            ext = [e for e in log if e[0] == "to_bytearray"]
-            okb = len(ext) == 1 and is_(ext[0][1].get("offset"), SOFF) and is_(ext[0][1].get("nbytes"), NB)
-            cx.check(okb, None, construct=label + ": extraction", detail="bytes extracted from the source at (source_offset, nbytes)", bad_detail=f"cross-context copy does not extract source.to_bytearray(source_offset, nbytes): {[(k, {a: repr(b) for a, b in d.items()}) for k, d in log]}", anchor="context::XBuffer.update_from_xbuffer", sub="extract")
-            oku = len(writes) == 1 and writes[0][0] == "update_from_buffer" and is_(writes[0][1].get("offset"), OFFS) and writes[0][1].get("source") is staged
-            cx.check(oku, None, construct=label + ": write", detail="and exactly those bytes written at `offset` with update_from_buffer", bad_detail=f"cross-context copy does not write the extracted bytes at `offset` with update_from_buffer: {[(k, {a: repr(b) for a, b in d.items()}) for k, d in log]}", anchor="context::XBuffer.update_from_xbuffer", sub="write")
+            why = tiles(log, NB)
+            cx.check(not why, None, construct=label + ": pieces", detail="the staged piece(s) tile the request: extracted from the source at source_offset (+ what came before), written at offset (+ the same), nbytes in all", bad_detail=f"cross-context copy: {why}: {[(k, {a: repr(b) for a, b in d.items() if a != 'result'}) for k, d in log]}", anchor="context::XBuffer.update_from_xbuffer", sub="pieces")
 
 
 @rule("B4", ["C13"], "sibling buffer classes implement the abstract signature with the same parameter order")
